@@ -224,10 +224,17 @@ def run(tier, seed, replay=None):
     for it in range(reps):
         pd = rng.choice([2, 2, 3])
         bs = [mk_basis(kind=rng.choice(['open', 'open', 'nonopen']), pmax=3 if pd == 3 else 4, nint_max=2) for _ in range(pd)]
+        same_basis = it % 4 == 3
+        if same_basis:
+            # the SAME basis in several directions (one object passed twice, or equal copies) with different parameter lists
+            # per direction: each direction must still be collocated at its own parameters
+            bs = [bs[0]] * pd if rng.random() < 0.7 else [bs[0], bs[0]] + bs[2:]
         ibs = [impl_basis(b) for b in bs]
+        if same_basis and rng.random() < 0.5:
+            ibs = [ibs[0]] * len([b for b in bs if b is bs[0]]) + ibs[len([b for b in bs if b is bs[0]]):]
         shape = [ib.num_functions() for ib in ibs]
         dim = rng.choice([1, 2, 3])
-        user = rng.random() < 0.5
+        user = rng.random() < 0.5 or same_basis
         us, upass = [], []
         for b, ib in zip(bs, ibs):
             tp, t = params_for(b, ib, user)
